@@ -31,6 +31,10 @@ enum Kind {
   ReqRecvReply { multipart: bool },
   /// REP: recv() pending, cancelled, then a request arrives; and REP.send on a full pipe
   RepRecvRequest { multipart: bool },
+  /// REQ.send() on a full pipe (SNDHWM=1, stalled network, earlier requests abandoned by RCVTIMEO)
+  ReqSendFullPipe { sndtimeo: i32 },
+  /// REP.send() (the reply) on a full pipe: the requester's network is stalled
+  RepSendFullPipe { sndtimeo: i32 },
 }
 
 #[derive(Clone, Copy, Debug, PartialEq, Eq, Hash)]
@@ -449,10 +453,241 @@ fn run_case(kind: Kind, k: usize) -> world::WorldResult<Obs> {
         }
         drop(l);
       }
+      Kind::ReqSendFullPipe { sndtimeo } => {
+        // REQ -> ROUTER peer over a link whose REQ->peer direction is stalled after the handshake.
+        // Requests are abandoned through RCVTIMEO, which puts the REQ back into 'ready to send'.
+        let q = stack::mk(&ctx, SocketType::Req, &[(o::RCVTIMEO, 20), (o::SNDTIMEO, sndtimeo), (o::SNDHWM, 1), (o::LINGER, 0)]).await;
+        let p = stack::mk(&ctx, SocketType::Router, &[(o::RCVTIMEO, 20), (o::RCVHWM, 1), (o::LINGER, 0)]).await;
+        let l = stack::link_pair(&q, &p, 256).await;
+        settle_n(6).await;
+        l.stall(world::Way::AtoB, true);
+        let mut accepted: Vec<Vec<u8>> = vec![];
+        // fill: each accepted request is abandoned; stop when a send does not complete at once
+        let mut filled = false;
+        for i in 0..40 {
+          let body = payload_big(format!("fill{}", i).as_bytes());
+          let q2 = q.clone();
+          let b2 = body.clone();
+          // poll once: a send that would wait is the one we are after (it is dropped here exactly
+          // like the cancelled one would be, so the probe uses a fresh message that is never judged)
+          let mut probe = Box::pin(async move { q2.send(msg(&b2, false)).await });
+          match futures_poll_once(&mut probe).await {
+            Some(Ok(())) => {
+              accepted.push(body);
+              let _ = q.recv().await; // times out: request abandoned
+            }
+            Some(Err(_)) => {
+              filled = true;
+              break;
+            }
+            None => {
+              // would block: let it run to its own (internal) conclusion if SNDTIMEO is finite
+              if sndtimeo >= 0 {
+                let _ = probe.await;
+              } else {
+                // infinite SNDTIMEO: this probe can only be got rid of by dropping it — which is a
+                // cancellation at the first Pending, i.e. the k=1 case itself. Keep it pending and
+                // judge it as the operation under test instead.
+                drop(probe);
+              }
+              filled = true;
+              break;
+            }
+          }
+        }
+        if !filled {
+          obs.followup_errors.push("harness: the REQ pipe never filled".into());
+        }
+        let body = payload_big(b"cancelled-request");
+        let q2 = q.clone();
+        let b2 = body.clone();
+        let op = tokio::spawn(async move { CancelAt::new(async move { q2.send(msg(&b2, false)).await }, k).await });
+        settle_n(3).await;
+        // the network moves again and the peer drains
+        l.stall(world::Way::AtoB, false);
+        settle_n(6).await;
+        let res = tokio::time::timeout(std::time::Duration::from_secs(600), op).await.unwrap_or(Ok(Some(Err(rzmq::ZmqError::Internal("operation still blocked after 600 s virtual".into())))));
+        let mut op_ok = false;
+        match res {
+          Ok(Some(Ok(()))) => {
+            obs.completed = true;
+            obs.op_result = "ok".into();
+            op_ok = true;
+          }
+          Ok(Some(Err(e))) => {
+            obs.completed = true;
+            obs.op_result = format!("err:{}", e);
+          }
+          Ok(None) => obs.op_result = "cancelled".into(),
+          Err(_) => obs.op_result = "task-panicked".into(),
+        }
+        if op_ok {
+          let _ = q.recv().await; // abandon it like the others
+        }
+        // the next request must be accepted and must arrive
+        let follow = payload_big(b"follow-up-request");
+        match tokio::time::timeout(std::time::Duration::from_secs(5), q.send(msg(&follow, false))).await {
+          Ok(Ok(())) => {}
+          Ok(Err(e)) => obs.followup_errors.push(format!("send after the cancelled send: {}", e)),
+          Err(_) => obs.followup_errors.push("send after the cancelled send blocks".into()),
+        }
+        settle_n(6).await;
+        let mut got: Vec<Vec<u8>> = vec![];
+        while let Ok(fr) = p.recv_multipart().await {
+          if let Some(last) = fr.last() {
+            got.push(last.data().unwrap_or(&[]).to_vec());
+          }
+        }
+        // accepted requests (+ the follow-up) must arrive once each, in order; the cancelled one may be absent
+        let mut want: Vec<(Vec<u8>, bool)> = accepted.iter().map(|a| (a.clone(), false)).collect();
+        want.push((body.clone(), !op_ok));
+        want.push((follow.clone(), false));
+        let mut gi = 0;
+        for (w, optional) in &want {
+          if got.get(gi) == Some(w) {
+            gi += 1;
+          } else if !*optional {
+            obs.followup_errors.push(format!("request {:?} was accepted but the peer received {:?}", String::from_utf8_lossy(&w[..w.len().min(18)]), got.iter().map(|g| String::from_utf8_lossy(&g[..g.len().min(18)]).to_string()).collect::<Vec<_>>()));
+            break;
+          }
+        }
+        if gi != got.len() && obs.followup_errors.is_empty() {
+          obs.followup_errors.push(format!("peer received unexpected extra/duplicate requests: {:?}", got.iter().map(|g| String::from_utf8_lossy(&g[..g.len().min(18)]).to_string()).collect::<Vec<_>>()));
+        }
+        drop(l);
+      }
+      Kind::RepSendFullPipe { sndtimeo } => {
+        // REP <- DEALER peer; the REP->peer direction is stalled, replies pile up
+        let p = stack::mk(&ctx, SocketType::Rep, &[(o::RCVTIMEO, 50), (o::SNDTIMEO, sndtimeo), (o::SNDHWM, 1), (o::LINGER, 0)]).await;
+        let d = stack::mk(&ctx, SocketType::Dealer, &[(o::RCVTIMEO, 20), (o::SNDTIMEO, 100), (o::RCVHWM, 1), (o::LINGER, 0)]).await;
+        let l = stack::link_pair(&d, &p, 256).await;
+        settle_n(6).await;
+        l.stall(world::Way::BtoA, true);
+        let mut accepted: Vec<Vec<u8>> = vec![];
+        let mut filled = false;
+        let mut req_no = 0;
+        for i in 0..40 {
+          // the DEALER sends a request envelope [empty, body]
+          let _ = d.send_multipart(vec![msg(b"", true), msg(format!("rq{}", i).as_bytes(), false)]).await;
+          req_no = i + 1;
+          settle_n(3).await;
+          if p.recv().await.is_err() {
+            obs.followup_errors.push("harness: REP did not get the request".into());
+            break;
+          }
+          let body = payload_big(format!("reply{}", i).as_bytes());
+          let p2 = p.clone();
+          let b2 = body.clone();
+          let mut probe = Box::pin(async move { p2.send(msg(&b2, false)).await });
+          match futures_poll_once(&mut probe).await {
+            Some(Ok(())) => accepted.push(body),
+            Some(Err(_)) => {
+              filled = true;
+              break;
+            }
+            None => {
+              if sndtimeo >= 0 {
+                let _ = probe.await;
+              } else {
+                drop(probe);
+              }
+              filled = true;
+              break;
+            }
+          }
+        }
+        if !filled {
+          obs.followup_errors.push("harness: the REP pipe never filled".into());
+        }
+        // after a failed/dropped reply the REP may be in either state; bring it to 'must send' with a fresh request
+        let _ = d.send_multipart(vec![msg(b"", true), msg(format!("rq{}", req_no).as_bytes(), false)]).await;
+        settle_n(3).await;
+        let _ = p.recv().await;
+        let body = payload_big(b"cancelled-reply");
+        let p2 = p.clone();
+        let b2 = body.clone();
+        let op = tokio::spawn(async move { CancelAt::new(async move { p2.send(msg(&b2, false)).await }, k).await });
+        settle_n(3).await;
+        l.stall(world::Way::BtoA, false);
+        settle_n(6).await;
+        let res = tokio::time::timeout(std::time::Duration::from_secs(600), op).await.unwrap_or(Ok(Some(Err(rzmq::ZmqError::Internal("operation still blocked after 600 s virtual".into())))));
+        match res {
+          Ok(Some(Ok(()))) => {
+            obs.completed = true;
+            obs.op_result = "ok".into();
+          }
+          Ok(Some(Err(e))) => {
+            obs.completed = true;
+            obs.op_result = format!("err:{}", e);
+          }
+          Ok(None) => obs.op_result = "cancelled".into(),
+          Err(_) => obs.op_result = "task-panicked".into(),
+        }
+        // drain what the DEALER got so far, then a complete fresh round trip must work
+        settle_n(6).await;
+        let mut got: Vec<Vec<u8>> = vec![];
+        while let Ok(fr) = d.recv_multipart().await {
+          if let Some(last) = fr.last() {
+            got.push(last.data().unwrap_or(&[]).to_vec());
+          }
+        }
+        for g in &got {
+          let whole = accepted.contains(g) || *g == body || g.starts_with(b"probe");
+          if !whole && !g.starts_with(b"reply") {
+            obs.followup_errors.push(format!("requester received a reply that was never offered whole: {:?}", String::from_utf8_lossy(&g[..g.len().min(18)])));
+          }
+        }
+        for a in &accepted {
+          if got.iter().filter(|g| *g == a).count() != 1 {
+            obs.followup_errors.push(format!("accepted reply {:?} arrived {} times", String::from_utf8_lossy(&a[..a.len().min(18)]), got.iter().filter(|g| *g == a).count()));
+            break;
+          }
+        }
+        // fresh round trip: whatever state the REP is in, within two requests it must answer again
+        let mut ok = false;
+        for r in 0..2 {
+          let _ = d.send_multipart(vec![msg(b"", true), msg(format!("fresh{}", r).as_bytes(), false)]).await;
+          settle_n(3).await;
+          match p.recv().await {
+            Ok(_) => {
+              if p.send(msg(b"fresh-reply", false)).await.is_ok() {
+                settle_n(3).await;
+                while let Ok(fr) = d.recv_multipart().await {
+                  if fr.last().map(|m| m.data() == Some(&b"fresh-reply"[..])).unwrap_or(false) {
+                    ok = true;
+                  }
+                }
+              }
+            }
+            Err(rzmq::ZmqError::InvalidState(_)) => {
+              // a reply is still owed (the cancelled one never went out): send it now
+              let _ = p.send(msg(b"owed-reply", false)).await;
+            }
+            Err(_) => {}
+          }
+          if ok {
+            break;
+          }
+        }
+        if !ok {
+          obs.followup_errors.push("no complete request/reply round trip possible after the cancelled REP.send".into());
+        }
+        drop(l);
+      }
     }
     let _ = tokio::time::timeout(std::time::Duration::from_secs(30), ctx.term()).await;
     obs
   })
+}
+
+/// Polls a future exactly once; Some(output) if it completed.
+async fn futures_poll_once<F: std::future::Future + Unpin>(f: &mut F) -> Option<F::Output> {
+  use std::task::Poll;
+  std::future::poll_fn(|cx| match std::pin::Pin::new(&mut *f).poll(cx) {
+    Poll::Ready(v) => Poll::Ready(Some(v)),
+    Poll::Pending => Poll::Ready(None),
+  })
+  .await
 }
 
 fn payload_big(tag: &[u8]) -> Vec<u8> {
@@ -492,7 +727,7 @@ fn judge(kind: Kind, obs: &Obs) -> Vec<(String, String, String)> {
   for e in &obs.followup_errors {
     v.push(("socket-unusable-after-cancel".into(), class.clone(), format!("op result {}: {}", obs.op_result, e)));
   }
-  if matches!(kind, Kind::ReqRecvReply { .. } | Kind::RepRecvRequest { .. }) {
+  if matches!(kind, Kind::ReqRecvReply { .. } | Kind::RepRecvRequest { .. } | Kind::ReqSendFullPipe { .. } | Kind::RepSendFullPipe { .. }) {
     return v;
   }
   // reconstruct messages from the flat stream
@@ -573,6 +808,10 @@ fn kinds(tier: Tier) -> Vec<Kind> {
   for multipart in [false, true] {
     v.push(Kind::ReqRecvReply { multipart });
     v.push(Kind::RepRecvRequest { multipart });
+  }
+  for sndtimeo in [-1, 40] {
+    v.push(Kind::ReqSendFullPipe { sndtimeo });
+    v.push(Kind::RepSendFullPipe { sndtimeo });
   }
   let _ = tier;
   v
